@@ -203,6 +203,18 @@ class IrToPythonCompiler:
             self.emit("v = x // y")
             self.emit("return -v if sign else v")
 
+        # IEEE float division: x / 0.0 is +-inf or nan, not an exception
+        self.emit("@staticmethod")
+        with self.func_def("fdiv(x, y):"):
+            self.emit("if y == 0:")
+            with self.indented():
+                self.emit("if x != x or x == 0:")
+                with self.indented():
+                    self.emit("return math.nan")
+                self.emit("sign = math.copysign(1.0, x) * math.copysign(1.0, y)")
+                self.emit("return math.copysign(math.inf, sign)")
+            self.emit("return x / y")
+
         # More c like remainder:
         # Note: sign of y is not relevant for result sign
         self.emit("@staticmethod")
@@ -510,6 +522,8 @@ class IrToPythonCompiler:
         elif op in shift_ops and ins.ty.is_integer:
             fname = shift_ops[op]
             self.emit(f"{ins.name} = {fname}({a}, {b}, {ins.ty.bits})")
+        elif op == "/" and ins.ty in [ir.f32, ir.f64]:
+            self.emit(f"{ins.name} = rt.fdiv({a}, {b})")
         else:
             self.emit(f"{ins.name} = {a} {op} {b}")
 
